@@ -148,6 +148,16 @@ CHECKS = {
         "Proportionality is decided per variate, not statistically; 1e-5 priority floor is part of the model; clear() not driven.",
         "DESIGN.md#c11",
     ),
+    "C14": (
+        True,
+        "exploration",
+        "boundary monitor on get_action of all 11 algorithms: space membership per row, mask arithmetic, greedy optimality against scores captured during the same call (instance-level forward wrapper / frame tap), fed zero variates for the random branches",
+        "All action-space kinds x observation kinds x exploration settings; ALL 2^n-1 masks for n<=5 (exhaustive sub-space), "
+        "forced ties / +-1e30 network outputs, per-agent masks and env-defined actions for the multi-agent learners; every "
+        "returned action is checked for shape, membership, mask legality and (exploration off) optimality among allowed actions.",
+        "PPO/IPPO bounds only in evaluation mode (statement); partly infinite Box bounds and non-ndarray mask forms are information only.",
+        "DESIGN.md#c14",
+    ),
 }
 
 NOT_YET = "check not built yet in this round (framework under construction); see DESIGN.md section for the plan"
